@@ -37,7 +37,7 @@ NAME = {0: 'Not Solved', 1: 'Optimal', -1: 'Infeasible', -2: 'Unbounded', -3: 'U
 
 def plan(tier):
     return {'cases_per_shard': 8 if tier == 'quick' else 100,
-            'time_cap_s': 45 if tier == 'quick' else 560, 'watchdog_s': 400 if tier == 'quick' else 2400}
+            'time_cap_s': 90 if tier == 'quick' else 560, 'watchdog_s': 400 if tier == 'quick' else 2400}
 
 
 def judge(ex, limit):
